@@ -36,9 +36,10 @@ func H_C20_slots() {
 			running++
 			verifrt.Assert(int64(running) <= s.semInteractive.sem.Size+s.semBatch.sem.Size, "never more searches hold a slot than the two queues admit")
 			for k := 0; k < 2; k++ {
+				// like streamSearch, which yields at every iteration and ignores the error: a failed
+				// Yield may be followed by another one
 				if yerr := p.Yield(ctx); yerr != nil {
 					verifrt.Assert(ctx.Cancelled, "Yield fails only for a cancelled search")
-					break
 				}
 			}
 			running--
